@@ -7,6 +7,7 @@ import (
 	"time"
 
 	"cosmossdk.io/math"
+	"github.com/cosmos/cosmos-sdk/codec"
 	sdk "github.com/cosmos/cosmos-sdk/types"
 	stakingtypes "github.com/cosmos/cosmos-sdk/x/staking/types"
 
@@ -286,6 +287,11 @@ func (s *Staking) setDelegation(del sdk.AccAddress, val sdk.ValAddress, d stakin
 	s.Dels[k] = &dd
 }
 
+// SetDelegationRaw installs a delegation record (harness set-up).
+func (s *Staking) SetDelegationRaw(del sdk.AccAddress, val sdk.ValAddress, d stakingtypes.Delegation) {
+	s.setDelegation(del, val, d)
+}
+
 func (s *Staking) removeDelegation(del sdk.AccAddress, val sdk.ValAddress) {
 	k := dkey(del, val)
 	delete(s.Dels, k)
@@ -511,6 +517,9 @@ func (e *Env) rewire() {
 	e.K = keeper.NewKeeper(e.Cdc, StoreService{e.Store}, e.Ak, e.Bank, e.Stk, e.Distr, FeeCollector, e.Authority)
 	e.Stk.Hooks = e.K.StakingHooks()
 }
+
+// Codec returns the codec as the interface the keeper sees (so that calls dispatch on nd.Cdc).
+func (e *Env) Codec() codec.BinaryCodec { return e.Cdc }
 
 // WithBlock moves the context to another block.
 func (e *Env) WithBlock(t time.Time, h int64) {
